@@ -18,6 +18,7 @@ RULE = (
     "two peers and one set change. Spec oracle (python): at the end every live peer has been told exactly the socket's "
     "current set (count > 0 iff in the set) and all peers agree."
     " Family bad-frame-then-subscribe: a peer's stream fails in the decoder (malformed frame) while others are healthy, then subscribe/unsubscribe follow: the failed peer's connection is released entirely (both halves) and the others are told every change."
+    " Family transient-announce: a transient write error (Interrupted, TimedOut, WouldBlock) on ONE of two peers while change #k of two histories is announced: the victim stays a peer and, once later changes have been written to it, it has been told each change exactly once — both peers agree with the socket's set on every topic."
 )
 ASSUMPTIONS = ["the set re-announced to a late joiner comes out of a HashSet: compared as a multiset of messages, not as a byte order"]
 TRUSTED = ["scc::HashMap iteration visits every registered peer exactly once"]
@@ -54,6 +55,25 @@ def history_case(hist, joins, n, tag, failing=False):
         sc.add(f"wire {p}")
     c = sc.case(f"{tag}#{n}", [tag])
     c.expect = ("agree", hist, peers)
+    return c
+
+
+def transient_case(hist, at, victim, kind, n):
+    """a TRANSIENT write error (`wrerr1`: exactly one write fails) on ONE peer's connection while the change `hist[at]` is
+    announced: the other peer is told at once; the victim stays a peer, and by the time later changes have been written
+    to it it has been told each change exactly once — it agrees with everybody about every topic"""
+    sc = wg.Script()
+    sc.sock(1, "SUB")
+    for p in (1, 2):
+        sc.attach(1, p, "PUB", b"p%d" % p)
+        sc.add(f"wire {p}")
+    for pos, item in enumerate(hist):
+        if pos == at:
+            sc.add(f"wrerr1 {victim} {kind}")
+        add_op(sc, item)
+        sc.add("wire 1", "wire 2")
+    c = sc.case(f"transient-announce-{kind}#{n}", ["transient-announce"])
+    c.expect = ("agree", hist, [1, 2])
     return c
 
 
@@ -101,6 +121,14 @@ def race_case(first, second, n):
 
 def cases(tier, rng):
     out = gen.corpus(ID)
+    tn = 940000
+    for hist in ([("sub", b"a"), ("sub", b"b"), ("unsub", b"a"), ("sub", b"z")],
+                 [("sub", b"a"), ("unsub", b"a"), ("sub", b"a"), ("unsub", b"a"), ("sub", b"b")]):
+        for at in range(len(hist) - 1):
+            for victim in (1, 2):
+                for kind in ("Interrupted", "TimedOut", "WouldBlock"):
+                    out.append(transient_case(hist, at, victim, kind, tn))
+                    tn += 1
     # safety net: seeded random schedules of these socket types over scripted pipes (partial reads, back-pressure,
     # errors, futures polled once or twice and then ABANDONED, sockets dropped) — every line predicted by the World model
     for i in range(150 if tier == "quick" else 3000):
